@@ -1,8 +1,9 @@
 SPECIFICATION Spec
 CONSTANTS Mode = "alphabet"
           Alpha = "full"
-          MaxLen = 0
+          Lens = {}
           SmallAlpha = "core"
-          CoreLen = 0
+          SmallLens = {}
+          Lattice = FALSE
           AsWritten = FALSE
 CHECK_DEADLOCK FALSE
